@@ -36,3 +36,18 @@ Print Assumptions C13_sound_valuation.
 Print Assumptions C13_exact.
 Print Assumptions C13_pv.
 Print Assumptions C13_no_pv_nodes.
+
+(** ** on ids: [evaluate_extras] / [evaluate_extras_and_python_version] walk [kind()] on ids, trying every child of an
+    environment variable ([Interner/EvalModel.v]); on every valid id they are the L1 evaluators of the theorems above *)
+From PV Require Import Interner.Store Interner.StoreProofs Interner.Intern Interner.EvalModel Interner.EvalProofs.
+Theorem C13_evaluate_extras_on_ids : forall (a : marena) (extras : list str) (fuel : nat) (x : nid),
+  Inv a -> valid (length a) x -> (rank x < fuel)%nat ->
+  m_eval_extras_i fuel a extras x = Some (m_eval_extras extras (unfold a x)).
+Proof. exact m_eval_extras_i_refines. Qed.
+
+Theorem C13_evaluate_extras_pv_on_ids : forall (a : marena) (pvk : N) (pvs : list version) (extras : list str), Inv a ->
+  forall (fuel : nat) (x : nid), valid (length a) x -> (rank x < fuel)%nat ->
+  m_eval_extras_pv_i fuel a pvk pvs extras x = Some (m_eval_extras_pv pvk pvs extras (unfold a x)).
+Proof. exact m_eval_extras_pv_i_refines. Qed.
+Print Assumptions C13_evaluate_extras_on_ids.
+Print Assumptions C13_evaluate_extras_pv_on_ids.
